@@ -92,7 +92,7 @@ def find_programs(cr):
         if adt['kind'] != 'struct' or not adt['variants']:
             continue
         fns = {f['n'] for f in adt['variants'][0]['fields']}
-        if not {'scc_times', 'scc_iters', 'update_indices_duration', 'update_time_nanos'} <= fns:
+        if not ({'scc_times', 'scc_iters'} <= fns or any(f.startswith('__') and f.endswith('_ind_common') for f in fns)):
             continue
         p = Program(cr, path, adt)
         for nm in ('run', 'run_timeout', 'update_indices_priv', 'update_indices'):
@@ -141,7 +141,7 @@ def parse_program(p):
         for n, parents in walk(body['tree']):
             if n.get('k') == 'block':
                 for s in n['ss']:
-                    if s['k'] == 'let' and s['p'].get('k') == 'bind' and s['p']['n'] == '_self':
+                    if _is_self_alias(p, s, set()):
                         blk = n
         if blk is None:
             raise Unrecognised('%s: ascent_run block not found' % p.path)
@@ -161,10 +161,25 @@ def parse_program(p):
     return p
 
 
+def _is_self_alias(p, s, self_ids):
+    """`let X = self;` or `let X = &mut <local holding the program struct>;` - recognised by type and initialiser, not by name"""
+    if s['k'] != 'let' or s['p'].get('k') != 'bind' or 'i' not in s:
+        return False
+    cr = p.cr
+    t = (cr.ty(s['p']) or '')
+    base = p.path.split('<')[0]
+    if not t.startswith('&mut ') or base.split('::')[-1] not in t:
+        return False
+    init = strip(s['i'])
+    while init.get('k') == 'addr':
+        init = strip(init['e'])
+    return init.get('k') == 'path' and init.get('res') == 'local'
+
+
 def _parse_run_block(p, blk, body):
     cr = p.cr
     self_ids = set()
-    if body['params'] and body['params'][0].get('k') == 'bind' and body['params'][0]['n'] == 'self':
+    if body['params'] and body['params'][0].get('k') == 'bind' and (cr.ty(body['params'][0]) or '').startswith('&mut '):
         self_ids.add(body['params'][0]['id'])
     stmts = list(blk['ss'])
     if 'e' in blk:
@@ -175,20 +190,17 @@ def _parse_run_block(p, blk, body):
     cur_label = None
     while i < len(stmts):
         s = stmts[i]
-        if s['k'] == 'let' and s['p'].get('k') == 'bind' and s['p']['n'] == '_self' and 'i' in s:
+        if _is_self_alias(p, s, self_ids):
             self_ids.add(s['p']['id'])
             p.prologue.append(s); i += 1; continue
         if s['k'] in ('expr', 'semi'):
             e = strip(s['e'])
-            if is_call_to(e, ['internal::comment']) and e['a'] and strip(e['a'][0]).get('k') == 'lit':
-                label = strip(e['a'][0])['v'].strip('"')
-                m = re.match(r'^scc (\d+)$', label)
-                if m and i + 1 < len(stmts):
-                    nxt = stmts[i + 1]
-                    ne = strip(nxt.get('e', {})) if nxt['k'] in ('expr', 'semi') else {}
-                    if ne.get('k') == 'block':
-                        p.sccs.append(_parse_scc(p, int(m.group(1)), ne, self_ids))
-                        i += 2; continue
+            if is_call_to(e, ['internal::comment']):
+                i += 1; continue      # labels are informational only
+            # a stratum = a top-level block statement after the self alias that takes index fields out of the program struct
+            if e.get('k') == 'block' and self_ids and _looks_like_scc(e, self_ids):
+                p.sccs.append(_parse_scc(p, len(p.sccs), e, self_ids))
+                i += 1; continue
             if not p.sccs:
                 p.prologue.append(s)
             else:
@@ -206,6 +218,20 @@ def _parse_run_block(p, blk, body):
 
 class Scc:
     pass
+
+
+def _looks_like_scc(blk, self_ids):
+    for s in blk['ss']:
+        if s['k'] == 'let' and 'i' in s:
+            init = strip(s['i'])
+            if is_call_to(init, TAKE) and init.get('a') and self_field(init['a'][0], self_ids) is not None:
+                return True
+    return False
+
+
+def _is_now(init):
+    c = callee(strip(init))
+    return bool(c) and cname(c).endswith('Instant::now')
 
 
 def _parse_scc(p, idx, blk, self_ids):
@@ -238,7 +264,7 @@ def _parse_scc(p, idx, blk, self_ids):
             if c and (cname(c).endswith('Default::default') or (c.get('i') or '').endswith('Default>::default')):
                 defaults[lid] = cr.ty(s['p'])
                 continue
-            if s['p']['n'] == '_scc_start_time':
+            if _is_now(s['i']):
                 continue
             sc.unparsed.append(s)
         elif s['k'] in ('expr', 'semi'):
@@ -325,19 +351,20 @@ def _parse_main(p, sc, self_ids):
 
     for s in stmts:
         if s['k'] == 'let' and 'i' in s and s['p'].get('k') == 'bind':
-            nm = s['p']['n']
             init = strip(s['i'])
-            if nm == '__changed':
+            is_flag = lit_bool(init) is not None or is_call_to(init, ['AtomicBool::new', 'Atomic::<bool>::new'])
+            if is_flag and sc.changed is None:
+                # the change flag: the (first) bool / AtomicBool local of the iteration
                 lb = lit_bool(init)
                 if lb is False:
                     sc.changed = (s['p']['id'], 'bool', s)
-                elif is_call_to(init, ['AtomicBool::new', 'Atomic::<bool>::new']) and lit_bool(init['a'][0]) is False:
+                elif lb is None and lit_bool(init['a'][0]) is False:
                     sc.changed = (s['p']['id'], 'atomic', s)
                 else:
-                    raise Unrecognised('%s scc %d: __changed not initialised to false' % (p.path, sc.idx))
+                    raise Unrecognised('%s scc %d: change flag not initialised to false' % (p.path, sc.idx))
                 sc.order.append(('changed', s))
                 continue
-            if nm == 'before_rule':
+            if _is_now(init):
                 continue
             sc.main_unparsed.append(s); continue
         if s['k'] not in ('expr', 'semi'):
@@ -453,8 +480,6 @@ def _proj(e, body):
     None if not recognised. A local (`selection_tuple`) is followed to its definition."""
     e = strip(e)
     if e.get('k') == 'path' and e.get('res') == 'local':
-        if e['n'] in ('_i', '__new_row_ind'):
-            return 'rowid'
         for y, _ in walk(body['tree']):
             if y.get('k') == 'let' and 'i' in y and y['p'].get('k') == 'bind' and y['p']['id'] == e['id']:
                 return _proj(y['i'], body)
